@@ -3,7 +3,9 @@ import Cvss.Model.Alloc
 /-!
 # C17, allocation cost of `Vector()` in the buffer cost model
 
-`Vector()` pre-sizes its buffer with `lenVec()` and then only appends. In the cost model of `Model/Alloc.lean`
+`Vector()` pre-sizes its buffer and then only appends. The capacity is the code's own: the translator emits, for the
+`b := make([]byte, 0, X)` of `Vector`, the twin definition `GenVxx.Vector_cap` (the statements before the `make`, then `X`);
+`cap_eq_lenVecNN` shows that it is `lenVec()` (`rfl` on the regenerated text). In the cost model of `Model/Alloc.lean`
 (`make` = 1 allocation, an `append` beyond the capacity = 1 more) this costs **exactly one** allocation for every
 well-formed object of every version, *whatever* sequence of appends produces the text — because the total appended length
 is `len(Vector()) = lenVec()` (C17 length theorems). Conversely any under-count in `lenVec` makes the model regrow.
@@ -19,18 +21,40 @@ private theorem sum_lengths (pieces : List (List Nat)) : (pieces.map List.length
   | nil => rfl
   | cons p ps ih => simp only [List.map_cons, List.sum_cons, List.flatten_cons, List.length_append, ih]
 
+private theorem flet_id (x : Nat) : F64.flet x (fun l => l) = x := by cases x <;> rfl
+
+/-! the capacity the code passes to `make` is `lenVec()` -/
+theorem cap_eq_lenVec20 (c : O20) : c.vectorCap = c.lenVec := by
+  simp only [O20.vectorCap, O20.lenVec, GenV20.Vector_cap, GenV20.Vector_cap_core, GenV20.lenVec, flet_id]
+theorem cap_eq_lenVec30 (c : O30) : c.vectorCap = c.lenVec := by
+  simp only [O30.vectorCap, O30.lenVec, GenV30.Vector_cap, GenV30.Vector_cap_core, GenV30.lenVec, flet_id]
+theorem cap_eq_lenVec31 (c : O31) : c.vectorCap = c.lenVec := by
+  simp only [O31.vectorCap, O31.lenVec, GenV31.Vector_cap, GenV31.Vector_cap_core, GenV31.lenVec, flet_id]
+theorem cap_eq_lenVec40 (c : O40) : c.vectorCap = c.lenVec := by
+  simp only [O40.vectorCap, O40.lenVec, GenV40.Vector_cap, GenV40.Vector_cap_core, GenV40.lenVec, flet_id]
+
+/-- **the text never outgrows the buffer the code allocated** -/
+theorem vector_fits20 (c : O20) (h : c.wf = true) : c.vector.length ≤ c.vectorCap := by
+  rw [cap_eq_lenVec20, C17.V20.length_eq c h]; exact Nat.le_refl _
+theorem vector_fits30 (c : O30) (h : c.wf = true) : c.vector.length ≤ c.vectorCap := by
+  rw [cap_eq_lenVec30, C17.V30.length_eq c h]; exact Nat.le_refl _
+theorem vector_fits31 (c : O31) (h : c.wf = true) : c.vector.length ≤ c.vectorCap := by
+  rw [cap_eq_lenVec31, C17.V31.length_eq c h]; exact Nat.le_refl _
+theorem vector_fits40 (c : O40) (h : c.wf = true) : c.vector.length ≤ c.vectorCap := by
+  rw [cap_eq_lenVec40, C17.V40.length_eq c h]; exact Nat.le_refl _
+
 theorem vector_one_alloc20 (c : O20) (h : c.wf = true) (pieces : List (List Nat)) (hp : pieces.flatten = c.vector) :
-    (run c.lenVec (pieces.map List.length)).allocs = 1 :=
-  presized_one_alloc _ _ (by rw [sum_lengths, hp, C17.V20.length_eq c h]; exact Nat.le_refl _)
+    (run c.vectorCap (pieces.map List.length)).allocs = 1 :=
+  presized_one_alloc _ _ (by rw [sum_lengths, hp]; exact vector_fits20 c h)
 theorem vector_one_alloc30 (c : O30) (h : c.wf = true) (pieces : List (List Nat)) (hp : pieces.flatten = c.vector) :
-    (run c.lenVec (pieces.map List.length)).allocs = 1 :=
-  presized_one_alloc _ _ (by rw [sum_lengths, hp, C17.V30.length_eq c h]; exact Nat.le_refl _)
+    (run c.vectorCap (pieces.map List.length)).allocs = 1 :=
+  presized_one_alloc _ _ (by rw [sum_lengths, hp]; exact vector_fits30 c h)
 theorem vector_one_alloc31 (c : O31) (h : c.wf = true) (pieces : List (List Nat)) (hp : pieces.flatten = c.vector) :
-    (run c.lenVec (pieces.map List.length)).allocs = 1 :=
-  presized_one_alloc _ _ (by rw [sum_lengths, hp, C17.V31.length_eq c h]; exact Nat.le_refl _)
+    (run c.vectorCap (pieces.map List.length)).allocs = 1 :=
+  presized_one_alloc _ _ (by rw [sum_lengths, hp]; exact vector_fits31 c h)
 theorem vector_one_alloc40 (c : O40) (h : c.wf = true) (pieces : List (List Nat)) (hp : pieces.flatten = c.vector) :
-    (run c.lenVec (pieces.map List.length)).allocs = 1 :=
-  presized_one_alloc _ _ (by rw [sum_lengths, hp, C17.V40.length_eq c h]; exact Nat.le_refl _)
+    (run c.vectorCap (pieces.map List.length)).allocs = 1 :=
+  presized_one_alloc _ _ (by rw [sum_lengths, hp]; exact vector_fits40 c h)
 
 /-- the converse, as a statement about the model: a capacity below the text's length costs a second allocation -/
 theorem undercount_regrows (cap : Nat) (pieces : List (List Nat)) (h : cap < pieces.flatten.length) :
